@@ -319,7 +319,7 @@ pub fn monitor(tier: Tier) -> Monitor {
             "the statement itself is the oracle; no model of decoding is needed".into(),
             "a write returning fewer bytes than given is accepted only at completion (snapshot hook: produced >= declared size)".into(),
         ],
-        families: vec![Family { name: "histories", count: tier.pick(30_000, 1_500_000), priority: false, enumerated: false, run: fam_histories }],
+        families: vec![Family { name: "histories", count: tier.pick(100_000, 3_000_000), priority: false, enumerated: false, run: fam_histories }],
         label,
         floors,
         summarize: no_summary,
